@@ -2027,3 +2027,52 @@ mod tests {
         assert_eq!(repl_program.get_types()[receive], Type::Integer);
     }
 }
+
+/// Verification hooks (compiled only with `--cfg quiver_verif`): read-only views of the routing,
+/// await and resource-ownership tables.
+#[cfg(quiver_verif)]
+pub struct EnvironmentDump {
+    /// process id -> worker id, sorted
+    pub process_router: Vec<(ProcessId, WorkerId)>,
+    /// awaiter -> (expected workers, workers that have responded, targets already answered), sorted
+    pub pending_awaits: Vec<(ProcessId, Vec<WorkerId>, Vec<WorkerId>, Vec<ProcessId>)>,
+    /// resource id -> owner, sorted
+    pub resource_ownership: Vec<(ResourceId, ProcessId)>,
+    pub next_process_id: ProcessId,
+}
+
+#[cfg(quiver_verif)]
+impl<E: Effect> Environment<E> {
+    pub fn verif_dump(&self) -> EnvironmentDump {
+        let mut process_router: Vec<(ProcessId, WorkerId)> =
+            self.process_router.iter().map(|(p, w)| (*p, *w)).collect();
+        process_router.sort_unstable();
+        let mut pending_awaits: Vec<_> = self
+            .pending_awaits
+            .iter()
+            .map(|(awaiter, pending)| {
+                let mut expected: Vec<WorkerId> = pending.expected_workers.iter().copied().collect();
+                expected.sort_unstable();
+                let mut responded: Vec<WorkerId> = pending.responses.keys().copied().collect();
+                responded.sort_unstable();
+                let mut answered: Vec<ProcessId> = pending
+                    .responses
+                    .values()
+                    .flat_map(|m| m.iter().filter(|(_, r)| r.is_some()).map(|(t, _)| *t))
+                    .collect();
+                answered.sort_unstable();
+                (*awaiter, expected, responded, answered)
+            })
+            .collect();
+        pending_awaits.sort();
+        let mut resource_ownership: Vec<(ResourceId, ProcessId)> =
+            self.resource_ownership.iter().map(|(r, p)| (*r, *p)).collect();
+        resource_ownership.sort_unstable();
+        EnvironmentDump {
+            process_router,
+            pending_awaits,
+            resource_ownership,
+            next_process_id: self.next_process_id,
+        }
+    }
+}
